@@ -740,6 +740,7 @@ class ParallelProcess(Process):
         # Answered locally, so that the engine can ask while the child
         # is busy computing an update.
         self._is_step = process.is_step()
+        self._known_parameters = process.parameters
         mp_ctx = multiprocessing.get_context(start_method)
         self.parent, child = mp_ctx.Pipe()
         self.multiprocess = mp_ctx.Process( # type: ignore[attr-defined]
@@ -831,7 +832,12 @@ class ParallelProcess(Process):
 
     @property
     def parameters(self) -> Dict[str, Any]:
-        return self.run_command('parameters')
+        if self._pending_command:
+            # The child is busy (the emitter may ask while an update
+            # is being computed): answer with what is known.
+            return self._known_parameters
+        self._known_parameters = self.run_command('parameters')
+        return self._known_parameters
 
     @property
     def condition_path(self) -> Optional[HierarchyPath]:
